@@ -1,5 +1,194 @@
-"""thorough tier: seeded-fault / twin validation (filled in later)"""
+"""Thorough tier: seeded-fault / behaviour-preserving-twin validation of the rules.
+
+Every variant is an edit of the *current* /repo sources held in memory (nothing is written under
+/repo, /verif or /tmp); the whole model is rebuilt for the variant and the rules of the property are
+re-evaluated.  A seeded fault must make the named rule report the named function; a twin must not
+produce any finding that the unchanged tree does not produce.
+"""
+from __future__ import annotations
+
+import importlib
+import os
+import sys
+import time
+from concurrent.futures import ProcessPoolExecutor
+from typing import Dict, List, Optional, Tuple
+
+from . import REPO_SRC, AnalysisError
+from .report import Check
+
+C, H, K, A, CA, F = "curves", "heavy", "knotspace", "advanced", "calculus", "functions"
 
 
-def run(prop, chk, src):
-    chk.selftest = {"status": "not yet built"}
+def V(id, props, module, old, new, rule, func, what, twin=False):
+    return dict(id=id, props=props, module=module, old=old, new=new, rule=rule, func=func, what=what, twin=twin)
+
+
+VARIANTS = [
+    # ---- reversed repairs (the defects found on the original tree must stay detectable)
+    V("rev-F1", ["C13"], C, "zip(selfcopy.ctrlpoints, othercopy.ctrlpoints)", "zip(self.ctrlpoints, othercopy.ctrlpoints)", "DEAD-REFINEMENT", "__eq__", "refined copy of the left operand never read"),
+    V("rev-F4", ["C03", "C04"], H, "        if not self.valid(nodes):\n            raise ValueError(\"Cannot insert nodes outside the interval\")\n        return self.__class__(newvector)", "        return self.__class__(newvector)", "V1", "ImmutableKnotVector.__add__", "insertion without interval test"),
+    V("rev-F5", ["C15", "C04"], C, "            self.knotvector = newvector\n            return\n        matrix = heavy.Operations.knot_insert", "            self.knotvector = newvector\n        matrix = heavy.Operations.knot_insert", "COMMIT-LAST", "Curve.knot_insert", "falls through after the commit"),
+    V("rev-F6", ["C19"], A, "        for _ in range(100):\n            bezui", "        while True:\n            bezui", "TERM", "__newton_point_on_curve", "unbounded Newton loop"),
+    V("rev-F7", ["C20"], A, "        if len(pairs) == 0:\n            return tuple()\n        pairs = tuple(pairs)\n        pairs = Intersection.filter_pairs(pairs)\n        pairs = Intersection.pairs_min_distance(pairs, curvea, curveb)", "        pairs = tuple(pairs)\n        pairs = Intersection.filter_pairs(pairs)\n        pairs = Intersection.pairs_min_distance(pairs, curvea, curveb)", "PRECOND", "curve_and_curve", "np.min over possibly empty pairs"),
+    V("rev-F8", ["C20"], A, "        matchs &= distances < 1e-6\n", "", "ABS-RESIDUAL", "pairs_min_distance", "filter relative to the minimum only"),
+    V("rev-F9", ["C05", "C06", "C14"], C, "if tolerance is not None and error > tolerance:", "if tolerance and error > tolerance:", "N", "BaseCurve.update", "truthiness test of the tolerance"),
+    V("rev-F10", ["C08"], C, "[other / w for w in newcurve.weights]", "[1 / w for w in newcurve.weights]", "DEP-MAY", "__rtruediv__", "numerator ignored"),
+    V("rev-F12", ["C18"], K, "        last = self[-1]\n        self.internal = ImmutableKnotVector(knoti / last for knoti in self)", "        self.scale(1 / self[-1])", "R", "normalize", "scale by reciprocal of own element"),
+    V("rev-F13", ["C04", "C06", "C07"], H, "        one = knotvector[-1] - knotvector[0]\n        one = (node - node + one) / one\n", "        one = node / node\n", "D", "one_knot_insert_once", "division by the node"),
+    V("rev-F14", ["C03"], H, "while degree + 2 < lenght and vector[degree] == vector[degree + 1]:", "while vector[degree] == vector[degree + 1]:", "X-INDEX", "__is_valid", "unbounded index scan"),
+    V("rev-F15", ["C16"], H, "                    if elem.denominator == 1:\n                        result[i, j] = int(elem)\n        return totuple(result)", "                    if elem.denominator == 1:\n                        result[i, j] = int(elem)\n            result = result.astype(\"int64\")\n        return totuple(result)", "FIXED-WIDTH", "Linalg.solve", "int64 cast"),
+    V("rev-F3a", ["C15", "C04", "C06"], C, "        self.ctrlpoints = None\n        self.weights = None\n        self.knotvector = newknotvector\n        self.weights = newweights\n        self.ctrlpoints = newctrlpoints\n", "        self.ctrlpoints = None\n        self.weights = None\n        self.knotvector = newknotvector\n        self.weights = newweights\n        self.ctrlpoints = np.dot(np.eye(len(newctrlpoints), dtype=\"object\"), newctrlpoints)\n", "COMMIT-LAST", "BaseCurve.apply", "computation after the commit"),
+    V("rev-F3b", ["C15", "C04"], C, "                numerators = [wei * pt for wei, pt in zip(oldweights, oldctrlpoints)]", "                numerators = list(oldctrlpoints)\n                for i, wei in enumerate(oldweights):\n                    numerators[i] *= wei", "NO-INPLACE-ELEM", "BaseCurve.apply", "in-place multiplication of stored points"),
+    # ---- seeded faults that pass the unedited suite (DESIGN §6)
+    V("elev-nodtype", ["C16"], H, "        matrix = np.zeros((degree + 2, degree + 1), dtype=\"object\")", "        matrix = np.zeros((degree + 2, degree + 1))", "E8", "degree_increase", "elevation matrix as float64"),
+    V("clean-once", ["C14"], C, "            try:\n                while True:\n                    self.knot_remove((knot,), tolerance)\n            except ValueError:\n                pass", "            try:\n                self.knot_remove((knot,), tolerance)\n            except ValueError:\n                pass", "UNTIL-REFUSED", "knot_clean", "one attempt per knot"),
+    V("pair-open-closed", ["C11", "C10"], H, "            nodes0to1 = NodeSample.closed_linspace(nptsinteg)\n            integrator = IntegratorArray.closed_newton_cotes(nptsinteg)", "            nodes0to1 = NodeSample.open_linspace(nptsinteg)\n            integrator = IntegratorArray.closed_newton_cotes(nptsinteg)", "PAIR", "func2func", "open nodes with closed weights"),
+    V("pair-size", ["C11", "C10"], H, "            integrator = IntegratorArray.closed_newton_cotes(nptsinteg)", "            integrator = IntegratorArray.closed_newton_cotes(nptsinteg - 1)", "PAIR", "func2func", "weights for one point less"),
+    V("registry-cheby-gauss", ["C10"], CA, "            \"chebyshev\": heavy.NodeSample.chebyshev,\n            \"gauss-legendre\": heavy.NodeSample.gauss_legendre,\n        }\n        array_functs = {\n            \"closed-newton-cotes\": heavy.IntegratorArray.closed_newton_cotes,\n            \"open-newton-cotes\": heavy.IntegratorArray.open_newton_cotes,\n            \"chebyshev\": heavy.IntegratorArray.chebyshev,\n            \"gauss-legendre\": heavy.IntegratorArray.gauss_legendre,\n        }\n        assert isinstance(curve, Curve)\n        if function is None:\n            function = lambda u: 1\n        if method is not None:\n            pass\n        elif isinstance(curve.knotvector[0], (int, Fraction)):\n            method = \"open-newton-cotes\"\n        else:\n            method = \"chebyshev\"\n        if nnodes is None:\n            nnodes = 1 + curve.degree\n        nodes_func = nodes_functs[method]\n        integ_array_func = array_functs[method]\n        nodes_0to1 = nodes_func(nnodes)\n        integ_array = integ_array_func(nnodes)\n        knots = curve.knotvector.knots\n        integrals = []\n        for start, end in zip(knots[:-1], knots[1:]):\n            nodes = tuple(start + (end - start) * node for node in nodes_0to1)\n            curve_vals = tuple(curve.eval(node) for node in nodes)\n            abscurve_vals", "            \"chebyshev\": heavy.NodeSample.gauss_legendre,\n            \"gauss-legendre\": heavy.NodeSample.gauss_legendre,\n        }\n        array_functs = {\n            \"closed-newton-cotes\": heavy.IntegratorArray.closed_newton_cotes,\n            \"open-newton-cotes\": heavy.IntegratorArray.open_newton_cotes,\n            \"chebyshev\": heavy.IntegratorArray.chebyshev,\n            \"gauss-legendre\": heavy.IntegratorArray.gauss_legendre,\n        }\n        assert isinstance(curve, Curve)\n        if function is None:\n            function = lambda u: 1\n        if method is not None:\n            pass\n        elif isinstance(curve.knotvector[0], (int, Fraction)):\n            method = \"open-newton-cotes\"\n        else:\n            method = \"chebyshev\"\n        if nnodes is None:\n            nnodes = 1 + curve.degree\n        nodes_func = nodes_functs[method]\n        integ_array_func = array_functs[method]\n        nodes_0to1 = nodes_func(nnodes)\n        integ_array = integ_array_func(nnodes)\n        knots = curve.knotvector.knots\n        integrals = []\n        for start, end in zip(knots[:-1], knots[1:]):\n            nodes = tuple(start + (end - start) * node for node in nodes_0to1)\n            curve_vals = tuple(curve.eval(node) for node in nodes)\n            abscurve_vals", "PAIR", "Integrate.density", "Chebyshev key mapped to Gauss nodes"),
+    V("integ-default-cheby", ["C16"], CA, "        elif isinstance(curve.knotvector[0], (int, Fraction)):\n            method = \"open-newton-cotes\"\n        else:\n            method = \"chebyshev\"\n        if nnodes is None:\n            nnodes = 1 + curve.degree\n        nodes_func = nodes_functs[method]\n        integ_array_func = array_functs[method]\n        nodes_0to1 = nodes_func(nnodes)\n        integ_array = integ_array_func(nnodes)\n        knots = curve.knotvector.knots\n        integrals = []\n        for start, end in zip(knots[:-1], knots[1:]):\n            nodes = tuple(start + (end - start) * node for node in nodes_0to1)\n            curve_vals = tuple(curve.eval(node) for node in nodes)\n            function_vals", "        elif isinstance(curve.knotvector[0], (int, Fraction)):\n            method = \"chebyshev\"\n        else:\n            method = \"chebyshev\"\n        if nnodes is None:\n            nnodes = 1 + curve.degree\n        nodes_func = nodes_functs[method]\n        integ_array_func = array_functs[method]\n        nodes_0to1 = nodes_func(nnodes)\n        integ_array = integ_array_func(nnodes)\n        knots = curve.knotvector.knots\n        integrals = []\n        for start, end in zip(knots[:-1], knots[1:]):\n            nodes = tuple(start + (end - start) * node for node in nodes_0to1)\n            curve_vals = tuple(curve.eval(node) for node in nodes)\n            function_vals", "E8", "Integrate.scalar", "default rule on exact knots is Chebyshev"),
+    V("div-noguard", ["C08"], C, "            copied.ctrlpoints = [point / other for point in copied.ctrlpoints]\n            return copied\n        if self.knotvector.limits != other.knotvector.limits:\n            raise ValueError\n", "            copied.ctrlpoints = [point / other for point in copied.ctrlpoints]\n            return copied\n", "GATE-LIMITS", "__truediv__", "curve / curve without limits guard"),
+    V("fit-rational-drop-nodes", ["C11", "C05"], C, "transmat, materror = lstsq(vectorb, weightsb, vectora, weightsa, nodes)", "transmat, materror = lstsq(vectorb, weightsb, vectora, weightsa)", "ARG-FLOW", "fit_curve", "rational fit drops the interpolation nodes"),
+    V("remove-none-nodes", ["C05"], C, "        knots = newknotvec.knots if newknotvec.degree != 0 else None\n        self.update(newknotvec, tolerance, knots)\n\n    def knot_clean", "        knots = newknotvec.knots if newknotvec.degree != 0 else None\n        self.update(newknotvec, tolerance, None)\n\n    def knot_clean", "ARG-FLOW", "knot_remove", "remaining knots not passed on"),
+    V("clean-drop-tol", ["C14"], C, "        self.degree_clean(tolerance=tolerance)\n        self.knot_clean(tolerance=tolerance)", "        self.degree_clean(tolerance=tolerance)\n        self.knot_clean()", "ARG-FLOW", "Curve.clean", "tolerance not passed on"),
+    V("fitpoints-ignore-weights", ["C12"], C, "        weights = None if self.weights is None else tuple(self.weights)\n        matrix = fitfunc(knotvector, nodes, weights)", "        weights = None\n        matrix = fitfunc(knotvector, nodes, weights)", "ARG-FLOW", "fit_points", "rational curve fitted with the polynomial basis"),
+    V("or-no-copy", ["C07", "C15"], C, "        othercopy = copy(other)\n        selfcopy = copy(self)\n        maxdegree", "        othercopy = other\n        selfcopy = self\n        maxdegree", "PURE", "__or__", "join works on the operands"),
+    V("fraction-self", ["C15"], C, "        if self.weights is None:\n            numerator = copy(self)\n            return numerator, 1", "        if self.weights is None:\n            numerator = self\n            return numerator, 1", "FRESH", "fraction", "numerator is the curve itself"),
+    V("deepcopy-share-kv", ["C15"], C, "        knotvector = copy(self.knotvector)\n        curve = self.__class__(knotvector)", "        knotvector = self.knotvector\n        curve = self.__class__(knotvector)", "FRESH", "__deepcopy__", "copy shares the KnotVector object"),
+    V("skip-dup-filter", ["C20"], A, "        if len(pairs) == 0:\n            return tuple()\n        pairs = tuple(pairs)\n        pairs = Intersection.filter_pairs(pairs)\n        pairs = Intersection.pairs_min_distance(pairs, curvea, curveb)", "        if len(pairs) == 0:\n            return tuple()\n        pairs = tuple(pairs)\n        pairs = Intersection.pairs_min_distance(pairs, curvea, curveb)", "FILTER", "curve_and_curve", "duplicate filter skipped"),
+    # ---- further seeded faults (caught by the suite as well; the rules decide them too)
+    V("neg-inplace", ["C15", "C08"], C, "        newcurve = copy(self)\n        newctrlpoints = [-1 * ctrlpt for ctrlpt in newcurve.ctrlpoints]\n        newcurve.ctrlpoints = newctrlpoints\n        return newcurve", "        newctrlpoints = [-1 * ctrlpt for ctrlpt in self.ctrlpoints]\n        self.ctrlpoints = newctrlpoints\n        return self", "PURE", "__neg__", "operand mutated"),
+    V("update-write-before-gate", ["C05", "C15"], C, "        temp_curve = self.__class__(newknotvector)\n        error = temp_curve.fit_curve(self, nodes)", "        temp_curve = self.__class__(newknotvector)\n        self.__knotvector = newknotvector\n        error = temp_curve.fit_curve(self, nodes)", "GATE-TOL", "BaseCurve.update", "write before the tolerance gate"),
+    V("memo-second-writer", ["C10"], H, "        assert isinstance(npts, int)\n        assert npts > 1\n        nums = tuple(range(0, npts))", "        assert isinstance(npts, int)\n        assert npts > 1\n        NodeSample.__cheby[npts] = tuple(range(npts))\n        nums = tuple(range(0, npts))", "PURE-MEMO", "_NodeSample__cheby", "second writer of a memo table"),
+    V("span-noguard", ["C01", "C03"], H, "    def span(self, nodes: Union[float, Tuple[float]]) -> Union[int, Tuple[int]]:\n        if not self.valid(nodes):\n            raise ValueError\n", "    def span(self, nodes: Union[float, Tuple[float]]) -> Union[int, Tuple[int]]:\n", "GATE-VALID", "span", "span without its guard"),
+    V("newton-no-upper-clamp", ["C20"], A, "            elif tmax < pair[0]:\n                pair[0] = tmax\n", "", "CLAMP", "__newton_bcurve_and_bcurve", "upper clamp of pair[0] removed"),
+    V("proj-no-lower-clamp", ["C19"], A, "            if initparam < umin:\n                return (umin,)\n", "", "CLAMP", "__newton_point_on_curve", "lower clamp removed"),
+    V("kv-or-nodeepcopy", ["C17", "C15"], K, "    def __or__(self, other: float):\n        return deepcopy(self).__ior__(other)", "    def __or__(self, other: float):\n        return self.__ior__(other)", "PURE", "KnotVector.__or__", "| mutates its left operand"),
+    V("ikv-or-noguard", ["C17"], H, "        other = ImmutableKnotVector(other)\n        if self.limits != other.limits:\n            raise ValueError\n        all_knots = list(self.knots) + list(other.knots)", "        other = ImmutableKnotVector(other)\n        all_knots = list(self.knots) + list(other.knots)", "GATE-LIMITS", "ImmutableKnotVector.__or__", "union without limits guard"),
+    V("valid-one-sided", ["C01"], H, "        if node < umin or umax < node:\n            return False", "        if node < umin:\n            return False", "BOTH-LIMITS", "__valid_single", "upper limit not tested"),
+    V("eval-swallow", ["C01"], C, "        self.knotvector.valid(nodes)\n        result = self.__eval(nodes)\n        return result[0] if onevalue else result", "        self.knotvector.valid(nodes)\n        try:\n            result = self.__eval(nodes)\n        except ValueError:\n            result = (None,) * len(nodes)\n        return result[0] if onevalue else result", "X-ESCAPE", "Curve.eval", "ValueError swallowed"),
+    V("getitem-skip-validator", ["C02"], F, "        self.__valid_first_index(i)\n        self.__valid_second_index(j)\n        return FunctionEvaluator(self, i, j)", "        self.__valid_first_index(i)\n        return FunctionEvaluator(self, i, j)", "GATE-INDEX", "__getitem__", "second index not validated"),
+    V("func-eval-wrong-degree", ["C02"], F, "        evaluator = self[:, self.degree]", "        evaluator = self[:, 0]", "DEP-MAY", "IndexableFunction.eval", "f(u) evaluated at degree 0"),
+    V("derivate-mutates", ["C09", "C15"], CA, "        dnumer = Derivate.nonrational_spline(numer)\n        dnumer.degree_increase(1)  # Shouldn't be necessary", "        curve.degree_increase(1)\n        dnumer = Derivate.nonrational_spline(numer)\n        dnumer.degree_increase(1)  # Shouldn't be necessary", "PURE", "rational_spline", "Derivate elevates its argument"),
+    V("derivate-fallthrough", ["C09"], CA, "        if curve.weights is None:\n            return Derivate.nonrational_bezier(curve)\n        return Derivate.rational_bezier(curve)", "        if curve.weights is None:\n            return Derivate.nonrational_bezier(curve)\n        if len(curve.weights) > 0:\n            return Derivate.rational_bezier(curve)", "EXHAUSTIVE", "Derivate.bezier", "dispatch falls through"),
+    V("split-drop-weights", ["C07"], C, "            if self.weights is not None:\n                newcurve.weights = np.dot(matrix, self.weights)\n            newcurves.append(newcurve)", "            newcurves.append(newcurve)", "DEP-MUST", "Curve.split", "pieces lose their weights"),
+    V("fitpoints-no-count", ["C12"], C, "        assert len(points) >= self.npts\n        fitfunc = heavy.LeastSquare.fit_function", "        fitfunc = heavy.LeastSquare.fit_function", "GATE-COUNT", "fit_points", "count check removed"),
+    V("fitfunction-other-nodes", ["C12"], C, "        nodes = tuple(nodes)\n        funcvals = [function(node) for node in nodes]\n        return self.fit_points(funcvals, nodes)", "        nodes = tuple(nodes)\n        funcvals = [function(node) for node in nodes]\n        nodes = tuple(sorted(nodes, reverse=True))\n        return self.fit_points(funcvals, nodes)", "SAME-NODES", "fit_function", "nodes rebound between sampling and fitting"),
+    V("degree-setter-swapped", ["C06"], C, "        if times > 0:\n            return self.degree_increase(times)\n        return self.degree_decrease(-times)", "        if times > 0:\n            return self.degree_increase(times)\n        return self.degree_decrease(times)", "DISPATCH", "degree.setter", "reduction called with a negative count"),
+    V("kv-setter-bypass", ["C03"], K, "        self.internal -= nodes\n        return self\n\n    def span", "        self._KnotVector__internal = tuple(x for x in self.internal if x not in nodes)\n        return self\n\n    def span", "FUNNEL", "KnotVector.remove", "payload rebound without the validating setter"),
+    V("shift-commit-early", ["C03", "C18"], K, "        vector = tuple(knoti + value for knoti in self)\n        self.internal = ImmutableKnotVector(vector)\n        return self", "        self.internal = ImmutableKnotVector(tuple(self))\n        vector = tuple(knoti + value for knoti in self)\n        self.internal = ImmutableKnotVector(vector)\n        return self", "COMMIT-LAST", "KnotVector.shift", "computation after a first commit"),
+    V("gen-skip-normalize", ["C18"], K, "        knotvector = GeneratorKnotVector.integer(degree, npts, cls)\n        knotvector.normalize()\n        return knotvector", "        knotvector = GeneratorKnotVector.integer(degree, npts, cls)\n        return knotvector", "NORMALIZED", "uniform", "uniform skips normalize"),
+    V("add-ignores-other-kv", ["C08"], C, "            curve = Curve(self.knotvector | other.knotvector)\n            ctrlpoints = np.array(matra) @ self.ctrlpoints\n            ctrlpoints += np.array(matrb) @ other.ctrlpoints", "            curve = Curve(self.knotvector | other.knotvector)\n            ctrlpoints = np.array(matra) @ self.ctrlpoints", "DEP-MAY", "__add__", "sum ignores the second operand's points"),
+    V("curve-shared-kv-shift", ["C15"], C, "        nodes = self.knotvector.knots\n        newnodes = times * nodes\n        newvector = self.knotvector + newnodes", "        nodes = self.knotvector.knots\n        newnodes = times * nodes\n        self.knotvector.insert(newnodes)\n        newvector = self.knotvector", "SHARED-KV", "degree_increase", "in-place insert on the shared KnotVector"),
+    V("seed-wrong-weight", ["C10"], H, "        3: (Fraction(1, 6), Fraction(2, 3), Fraction(1, 6)),", "        3: (Fraction(1, 6), Fraction(3, 5), Fraction(1, 6)),", "SEED", "closed_newton", "literal Simpson weights wrong"),
+    V("minpoint-left", ["C16"], C, "                        newpoint = line[j] * point\n", "                        newpoint = point * line[j]\n", "MIN-POINT", "BaseCurve.apply", "point * scalar"),
+    V("eq-type-guard-late", ["C13"], C, "        if type(self) is not type(other):\n            return False\n        if self.knotvector[0] != other.knotvector[0]:\n            return False", "        if self.knotvector[0] != other.knotvector[0]:\n            return False\n        if type(self) is not type(other):\n            return False", "TYPE-GUARD", "__eq__", "type guard not first"),
+    # ---- behaviour-preserving twins: must stay silent
+    V("twin-eq-rename", ["C13"], C, "        othercopy = copy(other)\n        othercopy.knotvector = newknotvec\n        for poi, qoi in zip(selfcopy.ctrlpoints, othercopy.ctrlpoints):", "        refined = copy(other)\n        refined.knotvector = newknotvec\n        for poi, qoi in zip(selfcopy.ctrlpoints, refined.ctrlpoints):", None, None, "local renamed", twin=True),
+    V("twin-update-ifelse", ["C05", "C06", "C14", "C15"], C, "        if tolerance is not None and error > tolerance:\n            error_msg = \"Cannot update knotvector cause error is \"\n            error_msg += f\" {float(error):.2e} > {tolerance}\"\n            raise ValueError(error_msg)\n        self.__knotvector = newknotvector", "        if not (tolerance is not None and error > tolerance):\n            pass\n        else:\n            error_msg = \"Cannot update knotvector cause error is \"\n            error_msg += f\" {float(error):.2e} > {tolerance}\"\n            raise ValueError(error_msg)\n        self.__knotvector = newknotvector", None, None, "guard written as if/pass/else/raise", twin=True),
+    V("twin-add-reorder", ["C08", "C15"], C, "            vecta, vectb = tuple(self.knotvector), tuple(other.knotvector)\n            matra, matrb = heavy.MathOperations.add_spline_curve(vecta, vectb)\n            curve = Curve(self.knotvector | other.knotvector)", "            vectb = tuple(other.knotvector)\n            vecta = tuple(self.knotvector)\n            curve = Curve(self.knotvector | other.knotvector)\n            matra, matrb = heavy.MathOperations.add_spline_curve(vecta, vectb)", None, None, "independent statements reordered", twin=True),
+    V("twin-span-helper", ["C01", "C03"], H, "    def span(self, nodes: Union[float, Tuple[float]]) -> Union[int, Tuple[int]]:\n        if not self.valid(nodes):\n            raise ValueError\n", "    def span(self, nodes: Union[float, Tuple[float]]) -> Union[int, Tuple[int]]:\n        ok = self.valid(nodes)\n        if not ok:\n            raise ValueError(\"node outside the interval\")\n", None, None, "guard through a local", twin=True),
+    V("twin-apply-dot", ["C04", "C06", "C15", "C16"], C, "            newctrlpoints = np.dot(matrix, oldctrlpoints)\n        else:", "            newctrlpoints = np.array(matrix) @ oldctrlpoints\n        else:", None, None, "np.dot written as @", twin=True),
+    V("twin-knotclean-tuple", ["C14"], C, "        nodes = tuple(set(nodes) - set(self.knotvector.limits))\n        for knot in nodes:", "        limits = set(self.knotvector.limits)\n        nodes = [knot for knot in set(nodes) if knot not in limits]\n        for knot in nodes:", None, None, "set difference written as a comprehension", twin=True),
+    V("twin-memo-rename", ["C10"], H, "        if npts not in IntegratorArray.__open_newton:\n            nodes = NodeSample.open_linspace(npts, Fraction)\n            weights = IntegratorArray.bezier_integrator_array(nodes)\n            IntegratorArray.__open_newton[npts] = weights", "        if npts not in IntegratorArray.__open_newton:\n            abscissae = NodeSample.open_linspace(npts, Fraction)\n            IntegratorArray.__open_newton[npts] = IntegratorArray.bezier_integrator_array(abscissae)", None, None, "locals renamed / inlined in an accessor", twin=True),
+    V("twin-or-guard-first", ["C07", "C15"], C, "        umaxleft = self.knotvector[-1]\n        uminright = other.knotvector[0]\n        if umaxleft != uminright:", "        uminright = other.knotvector[0]\n        umaxleft = self.knotvector[-1]\n        if not umaxleft == uminright:", None, None, "guard condition rewritten", twin=True),
+    V("twin-newton-for", ["C19"], A, "        for _ in range(100):\n            bezui", "        for _iteration in range(50):\n            bezui", None, None, "other iteration bound", twin=True),
+    V("twin-pairs-guard", ["C20"], A, "        if len(pairs) == 0:\n            return tuple()\n        pairs = tuple(pairs)\n        pairs = Intersection.filter_pairs(pairs)\n        pairs = Intersection.pairs_min_distance(pairs, curvea, curveb)", "        if len(pairs) != 0:\n            pairs = tuple(pairs)\n            pairs = Intersection.filter_pairs(pairs)\n            pairs = Intersection.pairs_min_distance(pairs, curvea, curveb)\n            return pairs\n        return tuple()\n        pairs = ()", None, None, "guard with the other polarity", twin=True),
+    V("twin-fitpoints-raise", ["C12"], C, "        assert len(points) >= self.npts\n        fitfunc", "        if len(points) < self.npts:\n            raise ValueError(\"fewer points than control points\")\n        fitfunc", None, None, "assert written as raise ValueError", twin=True),
+    V("twin-normalize-div", ["C18", "C03"], K, "        last = self[-1]\n        self.internal = ImmutableKnotVector(knoti / last for knoti in self)", "        length = self[-1]\n        vector = tuple(knoti / length for knoti in self)\n        self.internal = ImmutableKnotVector(vector)", None, None, "division spelled with a temporary", twin=True),
+    V("twin-ikv-or", ["C17"], H, "        other = ImmutableKnotVector(other)\n        if self.limits != other.limits:\n            raise ValueError\n        all_knots = list(self.knots) + list(other.knots)", "        other = ImmutableKnotVector(other)\n        if not self.limits == other.limits:\n            raise ValueError(\"different intervals\")\n        all_knots = list(self.knots) + list(other.knots)", None, None, "guard rewritten", twin=True),
+    V("twin-derivate-temp", ["C09"], CA, "        ctrlpoints = tuple(np.dot(matrix, curve.ctrlpoints))\n        newcurve = curve.__class__(vector[1:-1], ctrlpoints)", "        points = np.dot(matrix, curve.ctrlpoints)\n        ctrlpoints = tuple(points)\n        newcurve = curve.__class__(vector[1:-1], ctrlpoints)", None, None, "temporary introduced", twin=True),
+    V("twin-getitem-order", ["C02"], F, "        self.__valid_first_index(i)\n        self.__valid_second_index(j)", "        self.__valid_second_index(j)\n        self.__valid_first_index(i)", None, None, "validators reordered", twin=True),
+    V("twin-fit-curve-names", ["C11"], C, "            lstsq = heavy.LeastSquare.func2func\n            transmat, materror = lstsq(vectorb, weightsb, vectora, weightsa, nodes)", "            transmat, materror = heavy.LeastSquare.func2func(vectorb, weightsb, vectora, weightsa, fit_nodes=nodes)", None, None, "direct call with keyword", twin=True),
+]
+
+
+def _sources(src_dir: str, v: dict) -> Optional[dict]:
+    path = os.path.join(src_dir, v["module"] + ".py")
+    with open(path, encoding="utf-8") as fh:
+        text = fh.read()
+    if text.count(v["old"]) != 1:
+        return None
+    return {v["module"]: text.replace(v["old"], v["new"])}
+
+
+def _eval(args) -> dict:
+    prop, v, src_dir, base_keys = args
+    t0 = time.time()
+    try:
+        from . import model
+
+        srcs = _sources(src_dir, v)
+        if srcs is None:
+            return dict(id=v["id"], status="skipped", why="anchor text not found (or not unique) in the current sources", wall=0)
+        import ast as _ast
+        import warnings
+
+        with warnings.catch_warnings():
+            warnings.simplefilter("ignore")
+            _ast.parse(srcs[v["module"]])
+        mod = importlib.import_module(f"nv.rules.{prop.lower()}")
+        m = model.load(src_dir, sources=srcs, need=getattr(mod, "NEED", ("generic",)), cache=False)
+        chk = Check(prop, "thorough")
+        try:
+            mod.run(m, chk)
+        except AnalysisError as e:
+            # the variant removed an anchor / emptied a floor: for a seeded fault that *is* a detection
+            return dict(id=v["id"], status="detected" if not v["twin"] else "twin-analysis-error", how=f"ANALYSIS-ERROR: {e}", wall=round(time.time() - t0, 1))
+        keys = {f.key() for f in chk.findings}
+        new = [k for k in keys if list(k) not in base_keys]
+        if v["twin"]:
+            return dict(id=v["id"], status="silent" if not new else "twin-alarm", new=[list(k) for k in new][:4], wall=round(time.time() - t0, 1))
+        hit = [k for k in new if k[1] == v["rule"] and v["func"] in k[2]]
+        other = [k for k in new if k not in hit]
+        return dict(id=v["id"], status="detected" if hit else ("detected (by another rule of this property)" if other else "MISSED"), how=[list(k) for k in (hit or other)][:3], wall=round(time.time() - t0, 1))
+    except Exception as e:  # noqa
+        import traceback
+
+        return dict(id=v["id"], status="error", why=traceback.format_exc()[-600:], wall=round(time.time() - t0, 1))
+
+
+def run(prop: str, chk: Check, src_dir: str = REPO_SRC, jobs: int = 16):
+    mine = [v for v in VARIANTS if prop in v["props"]]
+    base_keys = [list(f.key()) for f in chk.findings]
+    results = []
+    if mine:
+        with ProcessPoolExecutor(max_workers=min(jobs, len(mine))) as ex:
+            results = list(ex.map(_eval, [(prop, v, src_dir, base_keys) for v in mine]))
+    by = {r["id"]: r for r in results}
+    faults = [v for v in mine if not v["twin"]]
+    twins = [v for v in mine if v["twin"]]
+    missed = [v for v in faults if by[v["id"]]["status"] in ("MISSED", "error")]
+    alarms = [v for v in twins if by[v["id"]]["status"] in ("twin-alarm", "twin-analysis-error", "error")]
+    applicable = [v for v in mine if by[v["id"]]["status"] != "skipped"]
+    chk.selftest = {
+        "variants": len(mine),
+        "applicable": len(applicable),
+        "seeded_faults": len(faults),
+        "seeded_faults_detected": sum(1 for v in faults if by[v["id"]]["status"].startswith("detected")),
+        "twins": len(twins),
+        "twins_silent": sum(1 for v in twins if by[v["id"]]["status"] == "silent"),
+        "results": [dict(by[v["id"]], what=v["what"], expect=[v["rule"], v["func"]]) for v in mine],
+    }
+    for v in faults:
+        r = by[v["id"]]
+        if r["status"] == "skipped":
+            chk.note(f"selftest: seeded fault {v['id']} skipped: {r['why']}")
+            continue
+        ok = r["status"].startswith("detected")
+        chk.obligations.append({"rule": "SELFTEST-FAULT", "instance": f"{v['id']}: {v['what']} -> {v['rule']} names {v['func']}", "ok": ok, "loc": v["module"] + ".py", "detail": str(r.get("how", r.get("why", "")))[:300], "nontrivial": True})
+    for v in twins:
+        r = by[v["id"]]
+        if r["status"] == "skipped":
+            chk.note(f"selftest: twin {v['id']} skipped: {r['why']}")
+            continue
+        ok = r["status"] == "silent"
+        chk.obligations.append({"rule": "SELFTEST-TWIN", "instance": f"{v['id']}: {v['what']} stays silent", "ok": ok, "loc": v["module"] + ".py", "detail": str(r.get("new", r.get("why", "")))[:300], "nontrivial": True})
+    if missed or alarms:
+        # the rules are not doing their job on this tree: that is a broken checker, not a property violation
+        raise AnalysisError(
+            f"{prop}: self-validation failed — seeded faults not detected: {[v['id'] for v in missed]}; twins raising an alarm: {[v['id'] for v in alarms]}; "
+            + "; ".join(str(by[v['id']].get('why', by[v['id']].get('new', '')))[:200] for v in missed + alarms)
+        )
+    if mine and len(applicable) * 2 < len(mine):
+        raise AnalysisError(f"{prop}: fewer than half of the self-validation variants apply to the current sources ({len(applicable)}/{len(mine)}): the corpus no longer matches the code")
